@@ -281,12 +281,13 @@ type c04Run struct {
 	lastPkt   int
 	hookSeen  []string
 
-	cancel context.CancelFunc
-	ctx    context.Context
-	doErr  error
-	doDone chan struct{}
-	doWall time.Duration
-	strict *bool
+	cancel          context.CancelFunc
+	ctx             context.Context
+	distantDeadline bool // the caller's context also carries a deadline far in the future
+	doErr           error
+	doDone          chan struct{}
+	doWall          time.Duration
+	strict          *bool
 }
 
 var errC04Callback = errors.New("c04: callback failed")
@@ -380,7 +381,15 @@ func (r *c04Run) startDo(gated bool) {
 	r.ctl.gated = gated
 	r.ctl.mu.Unlock()
 	c04CurCtl.Store(r.ctl)
-	r.ctx, r.cancel = context.WithCancel(context.Background())
+	if r.distantDeadline {
+		// a request budget far beyond the read timeout, cancelled explicitly long before it: the receive loop must
+		// still wake up every ReadTimeout to notice the cancellation (packet(): deadline = min(read timeout, ctx deadline))
+		dctx, dcancel := context.WithTimeout(context.Background(), 30*time.Second)
+		cctx, ccancel := context.WithCancel(dctx)
+		r.ctx, r.cancel = cctx, func() { ccancel(); dcancel() }
+	} else {
+		r.ctx, r.cancel = context.WithCancel(context.Background())
+	}
 	r.doDone = make(chan struct{})
 	q := r.query()
 	go func() {
@@ -537,6 +546,7 @@ func (r *c04Run) runPlan(plan []*c04Sx) string {
 type c04Obs struct {
 	failed, isCtx, isExc bool
 	closed               bool
+	pingPanic            string // the follow-up request panicked inside the library
 	closeCalls           int
 	toks                 string // per Write call of the query phase: d data, p failed write, c Cancel, z anything else <= 2 bytes holding a Cancel code
 	boundary             bool   // the data written (Cancel apart) ends at a packet boundary
@@ -656,7 +666,16 @@ func (r *c04Run) followUp(o *c04Obs) {
 	r.conn.mu.Unlock()
 	ctx, cancel := context.WithTimeout(context.Background(), time.Second)
 	defer cancel()
-	err := r.client.Ping(ctx)
+	var err error
+	func() {
+		defer func() {
+			if p := recover(); p != nil {
+				o.pingPanic = fmt.Sprintf("%v", p)
+				err = fmt.Errorf("panic: %v", p)
+			}
+		}()
+		err = r.client.Ping(ctx)
+	}()
 	r.conn.mu.Lock()
 	o.pingTouched = r.conn.touched
 	r.conn.mu.Unlock()
@@ -694,6 +713,9 @@ func (o c04Obs) String() string {
 // the direct oracle: C04 on the implementation alone
 func (o c04Obs) oracleC04(sc *c04Scen) string {
 	var bad []string
+	if o.pingPanic != "" {
+		bad = append(bad, "the next request on the client after the query panicked inside the library (leftover writer state): "+o.pingPanic)
+	}
 	if o.failed && !o.closed {
 		if o.ping != "clean" {
 			bad = append(bad, "open client after a failed query sends leftovers of the failed query ahead of the next request")
